@@ -70,7 +70,7 @@ mod imp {
 
     fn candidates() -> Vec<char> {
         let mut v = vec![];
-        let ranges: &[(u32, u32)] = &[(0xA0, 0x24F), (0x370, 0x3FF), (0x400, 0x4FF), (0x5D0, 0x5EA), (0x621, 0x64A), (0xE01, 0xE5B), (0x2010, 0x2030), (0x20AC, 0x20AC), (0x2190, 0x2199), (0x2500, 0x2570), (0x3041, 0x3096), (0x30A1, 0x30FA), (0x4E00, 0x5200), (0xAC00, 0xAE00), (0xF780, 0xF7FF), (0xFF01, 0xFF5E), (0x1F600, 0x1F64F)];
+        let ranges: &[(u32, u32)] = &[(0xA0, 0x24F), (0x370, 0x3FF), (0x400, 0x4FF), (0x5D0, 0x5EA), (0x621, 0x64A), (0xE01, 0xE5B), (0x2010, 0x2030), (0x20AC, 0x20AC), (0x2190, 0x2199), (0x2500, 0x2570), (0x3041, 0x3096), (0x30A1, 0x30FA), (0x4E00, 0x5200), (0xAC00, 0xAE00), (0xF780, 0xF7FF), (0xFEFF, 0xFEFF), (0xFF01, 0xFF5E), (0x1F600, 0x1F64F)];
         for (a, b) in ranges {
             for u in *a..=*b {
                 if let Some(c) = char::from_u32(u) {
@@ -149,6 +149,12 @@ mod imp {
         let mut raw = String::new();
         let mut un = String::new();
         for (k, p) in picks.iter().enumerate() {
+            // now and then a payload STARTS with U+FEFF (where the encoding has it): inside a payload it
+            // is an ordinary character, only the document's first three bytes are a byte-order mark
+            if k == 0 && *p % 11 == 3 && pool.chars.binary_search(&'\u{feff}').is_ok() {
+                raw.push('\u{feff}');
+                un.push('\u{feff}');
+            }
             if k % 3 == 2 || pool.chars.is_empty() {
                 let piece = ASCII_PIECES[*p as usize % ASCII_PIECES.len()];
                 if piece.starts_with('&') {
@@ -371,7 +377,7 @@ mod imp {
         for (k, (g, w)) in got.iter().zip(want.iter()).enumerate() {
             // (only meaningful for UTF-8 input with a BOM: in ISO-8859-10 the three bytes EF BB BF
             // are the ordinary characters "ïŧŋ")
-            if bom && g.payload.starts_with(&[0xEF, 0xBB, 0xBF]) {
+            if bom && g.payload.starts_with(&[0xEF, 0xBB, 0xBF]) && !w.1.starts_with('\u{feff}') {
                 return Verdict::fail(format!("event {} carries the byte-order mark | {}", k, ctx()));
             }
             if decl && g.enc_after != enc.name() {
